@@ -32,6 +32,8 @@ class Report:
         self.violations = []
         self.known = {}
         self.drift = []
+        self.extras = {}
+        self.extras_checked = {}
         self.extra = {}
         self.assumptions = []
         self.exhaustive = None
@@ -75,6 +77,14 @@ class Report:
         self.violations.append({"clause": clause, "replay": path})
         return True
 
+    # ---- checks of the specification beyond the listed properties: reported, never a verdict
+    def extra_note(self, clause, example):
+        e = self.extras.setdefault(clause, {"count": 0, "example": example})
+        e["count"] += 1
+
+    def extra_checked(self, name, n):
+        self.extras_checked[name] = self.extras_checked.get(name, 0) + n
+
     def spec_drift(self, text):
         if text not in self.drift:
             self.drift.append(text)
@@ -101,6 +111,9 @@ class Report:
                 print(f"  ... and {len(vs) - 3} more rejections with clause {clause}")
         for kid, k in self.known.items():
             print(f"KNOWN-FINDING: property={self.prop} {kid}: {k['entry']['title']} (re-observed {k['count']}x)")
+        for clause, e in self.extras.items():
+            print(f"EXTRA (beyond the listed properties, no verdict) {clause}: {e['count']} observation(s) disagree with the specification, "
+                  f"e.g. {json.dumps(e['example'], default=str)[:400]}")
         for d in self.drift:
             print(f"SPEC-DRIFT property={self.prop} {d}")
         for m in self.machinery:
@@ -118,6 +131,9 @@ class Report:
             "known_finding_examples": {k: json.loads(json.dumps(v["example"], default=str)) for k, v in self.known.items()},
             "spec_drift": self.drift,
         }
+        if self.extras_checked or self.extras:
+            cov["beyond_listed_properties"] = {"checked": self.extras_checked, "disagreements": {k: v["count"] for k, v in self.extras.items()},
+                                               "examples": {k: json.loads(json.dumps(v["example"], default=str)) for k, v in self.extras.items()}}
         if self.exhaustive is not None:
             cov["exhaustive"] = bool(self.exhaustive)
         if self.level == "translation_validation":
